@@ -258,7 +258,11 @@ pub fn asn_tag(input: Input<'_>) -> ParserResult<'_, AsnTag> {
                 value(TaggingEnvironment::Explicit, tag(EXPLICIT)),
                 value(TaggingEnvironment::Implicit, tag(IMPLICIT)),
             )),
-            not(satisfy(|c| c.is_alphanumeric() || c == '-')),
+            // (a hyphen continues a name only if a letter or digit follows: `--` starts a comment)
+            not(alt((
+                recognize(satisfy(|c| c.is_alphanumeric())),
+                recognize(pair(char('-'), satisfy(|c| c.is_alphanumeric()))),
+            ))),
         ))),
     ))
     .parse(input)
